@@ -165,3 +165,293 @@ Theorem C12_wrapped_ingest_from_source : forall cs cb,
   run_ingest gen_Ingest cs (ascii_of_nat (wr_delim gen_syslog_Ingest)) cb = Some (ingest cs newline cb).
 Proof. exact wrapped_ingest_from_source. Qed.
 Print Assumptions C12_wrapped_ingest_from_source.
+
+(* ====================================================================================================
+   bufio.Reader inside the model.  Until here [read_string] (Model/Framing.v) was the STATED contract of
+   bufio.Reader.ReadString.  Model/Bufio.v is the library code itself at array level (buf, r, w, err;
+   NewReaderSize, fill, readErr, Buffered, ReadSlice, collectFragments, ReadString, over a scripted
+   io.Reader); the theorems below PROVE the contract of it, for every buffer size, every reader state and
+   every script; harness/bufio + Model/BufioCheck.v compare the model call by call with the real package.
+
+   Reading guide (Model/Bufio.v, Proofs/BufioLemmas.v):
+     mkSource cs l fe n     the underlying io.Reader: each Read(p) is served from the first chunk of cs
+                            (min(len p, len chunk) bytes, nil; an empty chunk is a (0, nil) read); after the
+                            chunks the bytes l with the error fe, then (0, fe) for ever; n counts the calls
+     new_reader_size rd size   bufio.NewReaderSize(rd, size): a buffer of max(size, 16) bytes
+     read_string_b d b      b.ReadString(d) = RSOk string err b' | RSPanic _ | RSOutOfFuel
+     bufd b                 the buffered bytes b.buf[b.r:b.w];  T b = bufd b ++ all bytes the script holds
+     pending rd             what the script still holds, as chunks for [read_string]
+     progress_ok cs         cs has no 100 (= maxConsecutiveEmptyReads) consecutive empty chunks
+     exhausted rd           no chunk and no last bytes left: every further Read returns (0, fe)
+     reachable rd size b    b is new_reader_size rd size after any number of ReadString calls
+     wf b                   r <= w <= len buf, len buf >= 1; a pending b.err is the script's final error with
+                            the script exhausted; the script's final error is not bufio.ErrBufferFull
+   ==================================================================================================== *)
+From Coq Require Import Lia.
+From AM Require Import Model.Bufio Proofs.BufioLemmas.
+
+(* 1. Invariant of every reachable state: r <= w <= len(buf) = max(size, 16). *)
+Theorem C12_bufio_reachable_bounds : forall (rd : source) (size : nat) (b : reader),
+  ferr rd <> EBufferFull -> reachable rd size b ->
+  rpos b <= wpos b /\ wpos b <= length (buf b) /\ length (buf b) = Nat.max size min_read_buffer_size /\
+  min_read_buffer_size <= length (buf b).
+Proof. exact reachable_bounds. Qed.
+Print Assumptions C12_bufio_reachable_bounds.
+
+Theorem C12_bufio_reachable_wf : forall (rd : source) (size : nat) (b : reader),
+  ferr rd <> EBufferFull -> reachable rd size b ->
+  wf b /\ length (buf b) = Nat.max size min_read_buffer_size /\ ferr (rsrc b) = ferr rd.
+Proof. exact reachable_invariant. Qed.
+Print Assumptions C12_bufio_reachable_wf.
+
+(* Every ReadString call on a reachable state returns (no panic "tried to fill full buffer", no slice
+   out of range, the fuel of the two for-loops is never exhausted) -- for EVERY script, runs of empty
+   reads included. *)
+Theorem C12_bufio_read_string_returns : forall (rd : source) (size : nat) (b : reader) (d : ascii),
+  ferr rd <> EBufferFull -> reachable rd size b ->
+  exists out e b', read_string_b d b = RSOk out e b' /\ reachable rd size b'.
+Proof. exact reachable_read_string_returns. Qed.
+Print Assumptions C12_bufio_read_string_returns.
+
+(* fill, called as ReadSlice calls it (room in the buffer, b.err == nil), does not panic, leaves r = 0
+   and does not change the bytes still to be returned *)
+Theorem C12_bufio_fill_never_panics : forall b : reader,
+  wf b -> rerr b = None -> buffered_n b < length (buf b) ->
+  exists b', fill b = FillOk b' /\ bounds b' /\ rpos b' = 0 /\ T b' = T b.
+Proof. exact fill_never_panics. Qed.
+Print Assumptions C12_bufio_fill_never_panics.
+
+Theorem C12_bufio_read_slice_returns : forall (d : ascii) (b : reader), wf b ->
+  exists line e b', read_slice d b = RSOk line e b' /\ bounds b' /\ T b = line ++ T b'.
+Proof. exact read_slice_returns. Qed.
+Print Assumptions C12_bufio_read_slice_returns.
+
+(* 2. THE CONTRACT.  Every state with the invariant, every delimiter, every buffer size, every script
+   that never serves 100 empty reads in a row: ReadString returns exactly what [read_string] says on
+   (buffered bytes, what the script still holds) -- the line and a nil error, and then the new state's
+   buffered bytes ++ script bytes are the contract's rest ++ remaining chunks; or, at the end of the
+   script, all remaining bytes with the script's final error (io.EOF or not), the buffer empty, nothing
+   pending.  Records longer than the buffer (ErrBufferFull, full buffers collected) are inside. *)
+Theorem C12_bufio_contract : forall (d : ascii) (b : reader),
+  wf b -> progress_ok (chunks (rsrc b)) ->
+  match read_string d (bufd b) (pending (rsrc b)) with
+  | RdLine l rest cs' =>
+      exists b', read_string_b d b = RSOk l None b' /\
+        wf b' /\ progress_ok (chunks (rsrc b')) /\
+        length (buf b') = length (buf b) /\ ferr (rsrc b') = ferr (rsrc b) /\
+        bufd b' ++ concat (pending (rsrc b')) = rest ++ concat cs'
+  | RdEOF rem =>
+      exists b', read_string_b d b = RSOk rem (Some (ferr (rsrc b))) b' /\
+        wf b' /\ length (buf b') = length (buf b) /\ ferr (rsrc b') = ferr (rsrc b) /\
+        bufd b' = [] /\ exhausted (rsrc b') /\ rerr b' = None
+  end.
+Proof. exact bufio_read_string_contract. Qed.
+Print Assumptions C12_bufio_contract.
+
+(* the same over the states a reader reaches, hypotheses on the script given to NewReaderSize only *)
+Theorem C12_bufio_contract_reachable : forall (rd : source) (size : nat) (d : ascii) (b : reader),
+  ferr rd <> EBufferFull -> progress_ok (chunks rd) -> reachable rd size b ->
+  match read_string d (bufd b) (pending (rsrc b)) with
+  | RdLine l rest cs' =>
+      exists b', read_string_b d b = RSOk l None b' /\ reachable rd size b' /\
+        bufd b' ++ concat (pending (rsrc b')) = rest ++ concat cs'
+  | RdEOF rem =>
+      exists b', read_string_b d b = RSOk rem (Some (ferr rd)) b' /\ reachable rd size b' /\
+        bufd b' = [] /\ exhausted (rsrc b') /\ rerr b' = None
+  end.
+Proof. exact bufio_contract_reachable. Qed.
+Print Assumptions C12_bufio_contract_reachable.
+
+(* the first call on a fresh reader: the contract on ([], the script), whatever the size *)
+Theorem C12_bufio_contract_fresh : forall (d : ascii) (rd : source) (size : nat),
+  ferr rd <> EBufferFull -> progress_ok (chunks rd) ->
+  match read_string d [] (pending rd) with
+  | RdLine l rest cs' =>
+      exists b', read_string_b d (new_reader_size rd size) = RSOk l None b' /\
+        bufd b' ++ concat (pending (rsrc b')) = rest ++ concat cs'
+  | RdEOF rem =>
+      exists b', read_string_b d (new_reader_size rd size) = RSOk rem (Some (ferr rd)) b' /\
+        bufd b' = [] /\ exhausted (rsrc b')
+  end.
+Proof. exact bufio_read_string_fresh. Qed.
+Print Assumptions C12_bufio_contract_fresh.
+
+(* With NO assumption on the script: a call returns the contract's line, or the contract's end of
+   stream, or io.ErrNoProgress -- and the last only from a script with 100 empty reads in a row. *)
+Theorem C12_bufio_contract_total : forall (d : ascii) (b : reader), wf b ->
+  exists out e b', read_string_b d b = RSOk out e b' /\ wf b' /\
+    length (buf b') = length (buf b) /\ ferr (rsrc b') = ferr (rsrc b) /\
+    ( (e = None /\ exists rest cs', read_string d (bufd b) (pending (rsrc b)) = RdLine out rest cs' /\
+                    bufd b' ++ concat (pending (rsrc b')) = rest ++ concat cs')
+    \/ (e = Some (ferr (rsrc b)) /\ read_string d (bufd b) (pending (rsrc b)) = RdEOF out /\
+        bufd b' = [] /\ exhausted (rsrc b') /\ rerr b' = None)
+    \/ (e = Some ENoProgress /\ ~ progress_ok (chunks (rsrc b)) /\ ~ In d out /\
+        T b = out ++ T b' /\ bufd b' = [] /\ rerr b' = None) ).
+Proof. exact bufio_read_string_total. Qed.
+Print Assumptions C12_bufio_contract_total.
+
+(* Independence of the buffer size AND of the chunking, said directly: two readers (any sizes, any
+   scripts, any states) that still have the same bytes to return and the same final error return the
+   same string and the same error, and afterwards again have the same bytes to return. *)
+Theorem C12_bufio_independent : forall (d : ascii) (b1 b2 : reader), wf b1 -> wf b2 ->
+  progress_ok (chunks (rsrc b1)) -> progress_ok (chunks (rsrc b2)) ->
+  T b1 = T b2 -> ferr (rsrc b1) = ferr (rsrc b2) ->
+  exists out e b1' b2', read_string_b d b1 = RSOk out e b1' /\ read_string_b d b2 = RSOk out e b2' /\
+                        T b1' = T b2'.
+Proof. exact bufio_read_string_independent. Qed.
+Print Assumptions C12_bufio_independent.
+
+(* 3. THE LOOP.  Ingest run on the bufio model, any buffer size, any chunking without 100 consecutive
+   empty chunks: exactly [ingest] -- so every C12 theorem above holds of it (C12_bufio_spec spells out
+   C12_spec). *)
+Theorem C12_bufio_ingest : forall (size : nat) (cs : list str) (d : ascii) (cb : callback),
+  progress_ok cs ->
+  bufio_ingest size cs d cb = (fst (ingest cs d cb), Some (snd (ingest cs d cb))).
+Proof. exact bufio_ingest_eq. Qed.
+Print Assumptions C12_bufio_ingest.
+
+(* os.File: (0, nil) only for len(p) = 0, so no empty chunk at all *)
+Theorem C12_bufio_ingest_file : forall (size : nat) (cs : list str) (d : ascii) (cb : callback),
+  Forall (fun c => c <> []) cs ->
+  bufio_ingest size cs d cb = (fst (ingest cs d cb), Some (snd (ingest cs d cb))).
+Proof. exact bufio_ingest_eq_file. Qed.
+Print Assumptions C12_bufio_ingest_file.
+
+Theorem C12_bufio_spec : forall (size : nat) (cs : list str) (d : ascii) (cb : callback),
+  progress_ok cs ->
+  let rs := records d (concat cs) in
+  ((forall i x, nth_error rs i = Some x -> cb i x = true) /\ bufio_ingest size cs d cb = (rs, Some RetEOF)) \/
+  (exists pre r post, rs = pre ++ r :: post /\
+      (forall i x, nth_error pre i = Some x -> cb i x = true) /\ cb (length pre) r = false /\
+      bufio_ingest size cs d cb = (pre ++ [r], Some (RetCallbackErr (length pre)))).
+Proof. exact bufio_ingest_chunks_spec. Qed.
+Print Assumptions C12_bufio_spec.
+
+(* Any script -- final error io.EOF or another one (os.ErrClosed after the close-on-cancel goroutine
+   closed the file), the last read carrying bytes or not: the records delivered are [ingest]'s; Ingest
+   returns the failing callback's error, else the script's final error UNCHANGED (ret_of: RetEOF becomes
+   BReadErr (ferr rd)); the bytes after the last delimiter are dropped in both cases. *)
+Theorem C12_bufio_ingest_any_final_error : forall (size : nat) (rd : source) (d : ascii) (cb : callback),
+  ferr rd <> EBufferFull -> progress_ok (chunks rd) ->
+  bufio_ingest_src size rd d cb =
+  (fst (ingest (pending rd) d cb), ret_of (ferr rd) (snd (ingest (pending rd) d cb))).
+Proof. exact bufio_ingest_src_spec. Qed.
+Print Assumptions C12_bufio_ingest_any_final_error.
+
+(* 4. io.ErrNoProgress.  The exact behaviour: nothing pending, no delimiter among the buffered bytes,
+   the script serves 100 empty reads next => ReadString returns the buffered bytes with
+   io.ErrNoProgress, consumes exactly those 100 reads, leaves the buffer empty and no error pending. *)
+Theorem C12_bufio_no_progress : forall (d : ascii) (b : reader) (rest : list str),
+  wf b -> rerr b = None -> ~ In d (bufd b) ->
+  chunks (rsrc b) = repeat [] max_consecutive_empty_reads ++ rest ->
+  exists b', read_string_b d b = RSOk (bufd b) (Some ENoProgress) b' /\
+    wf b' /\ bufd b' = [] /\ rerr b' = None /\ length (buf b') = length (buf b) /\
+    chunks (rsrc b') = rest /\ last (rsrc b') = last (rsrc b) /\ ferr (rsrc b') = ferr (rsrc b).
+Proof. exact bufio_no_progress. Qed.
+Print Assumptions C12_bufio_no_progress.
+
+(* ... and only then (unless io.ErrNoProgress is the script's own final error) *)
+Theorem C12_bufio_no_progress_only : forall (d : ascii) (b : reader) (out : str) (b' : reader),
+  wf b -> read_string_b d b = RSOk out (Some ENoProgress) b' ->
+  ferr (rsrc b) = ENoProgress \/
+  exists pre rest, chunks (rsrc b) = pre ++ repeat [] max_consecutive_empty_reads ++ rest.
+Proof. exact bufio_no_progress_only. Qed.
+Print Assumptions C12_bufio_no_progress_only.
+
+(* what the contract theorem's hypothesis excludes is exactly that *)
+Theorem C12_bufio_excluded_exactly : forall cs : list str,
+  ~ progress_ok cs <-> exists pre rest, cs = pre ++ repeat [] max_consecutive_empty_reads ++ rest.
+Proof. exact not_progress_ok_iff. Qed.
+Print Assumptions C12_bufio_excluded_exactly.
+
+(* Why the script's error must not be bufio.ErrBufferFull: collectFragments takes it for a full buffer
+   and goes round for ever (the real package does the same); in the model every fuel runs out. *)
+Theorem C12_bufio_buffer_full_source_diverges : forall (d : ascii) (fuel : nat) (full : list str) (b : reader),
+  bounds b -> rerr b = None -> bufd b = [] -> exhausted (rsrc b) -> ferr (rsrc b) = EBufferFull ->
+  collect_loop fuel d full b = CFOutOfFuel.
+Proof. exact bufio_buffer_full_source_diverges. Qed.
+Print Assumptions C12_bufio_buffer_full_source_diverges.
+
+(* ---------- non-vacuity and concrete runs ---------- *)
+
+(* the stream of C12_stream in four chunks with empty reads between them, final error io.EOF *)
+Definition C12_bufio_script : source :=
+  mkSource [s2l "a"; s2l "b" ++ [C12_nl; C12_nl] ++ s2l "cd"; []; []; s2l " ef" ++ [C12_nl] ++ s2l "xy"; s2l "z"] [] EEOF 0.
+
+Example C12_bufio_example_script_ok :
+  ferr C12_bufio_script <> EBufferFull /\ progress_ok (chunks C12_bufio_script) /\
+  concat (pending C12_bufio_script) = C12_stream.
+Proof. split; [discriminate|]. split; [|reflexivity]. cbn. unfold max_consecutive_empty_reads. repeat split; lia. Qed.
+
+(* the state after the first ReadString: r = 3, w = 6 ("ab\n" returned, "\ncd" buffered), reachable,
+   hence wf: a non-trivial state that meets the hypotheses of C12_bufio_contract *)
+Example C12_bufio_example_state : exists b,
+  read_string_b C12_nl (new_reader_size C12_bufio_script 16) = RSOk (s2l "ab" ++ [C12_nl]) None b /\
+  reachable C12_bufio_script 16 b /\ wf b /\ progress_ok (chunks (rsrc b)) /\
+  rpos b = 3 /\ wpos b = 6 /\ length (buf b) = 16 /\ bufd b = [C12_nl] ++ s2l "cd" /\ served (rsrc b) = 2.
+Proof.
+  eexists. split; [vm_compute; reflexivity|].
+  assert (Hr : reachable C12_bufio_script 16
+                 (mkReader (s2l "ab" ++ [C12_nl; C12_nl] ++ s2l "cd" ++ repeat Ascii.zero 10) 3 6 None
+                    (mkSource [[]; []; s2l " ef" ++ [C12_nl] ++ s2l "xy"; s2l "z"] [] EEOF 2))).
+  { eapply (reach_call _ _ C12_nl); [apply reach_new|]. vm_compute. reflexivity. }
+  split; [exact Hr|].
+  assert (Hne : ferr C12_bufio_script <> EBufferFull) by (cbn; discriminate).
+  split; [exact (proj1 (reachable_invariant _ _ _ Hne Hr))|].
+  split; [cbn; unfold max_consecutive_empty_reads; repeat split; lia|].
+  repeat split.
+Qed.
+
+(* the whole run, buffer of 16 bytes: the three records, then "xyz" with io.EOF, then ("", io.EOF) *)
+Example C12_bufio_example_run :
+  bufio_ingest 16 (chunks C12_bufio_script) C12_nl never_fail =
+  ([s2l "ab" ++ [C12_nl]; [C12_nl]; s2l "cd ef" ++ [C12_nl]], Some RetEOF) /\
+  bufio_ingest 0 C12_bytewise C12_nl (fail_at 1) = ([s2l "ab" ++ [C12_nl]; [C12_nl]], Some (RetCallbackErr 1)).
+Proof. vm_compute. split; reflexivity. Qed.
+
+(* a record of 40 bytes through a buffer of 16: two full buffers are collected, then the final fragment *)
+Example C12_bufio_example_longer_than_buffer :
+  let rd := mkSource [repeat "x"%char 25; repeat "x"%char 14 ++ [C12_nl] ++ s2l "tail"] [] EOther 0 in
+  exists b, read_string_b C12_nl (new_reader_size rd 16) = RSOk (repeat "x"%char 39 ++ [C12_nl]) None b /\
+            bufd b = s2l "tail" /\
+  exists b', read_string_b C12_nl b = RSOk (s2l "tail") (Some EOther) b' /\ bufd b' = [] /\
+             bufio_ingest_src 16 rd C12_nl never_fail = ([repeat "x"%char 39 ++ [C12_nl]], BReadErr EOther).
+Proof.
+  cbv zeta. eexists. split; [vm_compute; reflexivity|]. split; [vm_compute; reflexivity|].
+  eexists. split; [vm_compute; reflexivity|]. split; vm_compute; reflexivity.
+Qed.
+
+(* 100 empty reads in the middle of a record: the first call returns what was read so far with
+   io.ErrNoProgress, the next call carries on and returns the rest of the record with a nil error *)
+Example C12_bufio_example_no_progress :
+  let rd := mkSource (s2l "ab" :: repeat [] 100 ++ [s2l "c" ++ [C12_nl]]) [] EEOF 0 in
+  ~ progress_ok (chunks rd) /\
+  exists b, read_string_b C12_nl (new_reader_size rd 16) = RSOk (s2l "ab") (Some ENoProgress) b /\
+            chunks (rsrc b) = [s2l "c" ++ [C12_nl]] /\ served (rsrc b) = 101 /\
+  exists b', read_string_b C12_nl b = RSOk (s2l "c" ++ [C12_nl]) None b'.
+Proof.
+  cbv zeta. split.
+  - apply not_progress_ok_iff. exists [s2l "ab"], [s2l "c" ++ [C12_nl]]. reflexivity.
+  - eexists. split; [vm_compute; reflexivity|]. split; [vm_compute; reflexivity|]. split; [vm_compute; reflexivity|].
+    eexists. vm_compute. reflexivity.
+Qed.
+
+(* 99 empty reads are fine: the contract's hypothesis holds and the record comes back whole *)
+Example C12_bufio_example_99_empty_reads :
+  let cs := s2l "ab" :: repeat [] 99 ++ [s2l "c" ++ [C12_nl]] in
+  progress_ok cs /\ bufio_ingest 16 cs C12_nl never_fail = ([s2l "abc" ++ [C12_nl]], Some RetEOF).
+Proof.
+  cbv zeta. split; [|vm_compute; reflexivity].
+  assert (H : forall n, n < 100 -> progress_ok (repeat [] n ++ [s2l "c" ++ [C12_nl]])).
+  { induction n as [|n IH]; intros Hn.
+    - cbn. unfold max_consecutive_empty_reads. repeat split; lia.
+    - cbn [repeat app]. split; [|apply IH; lia].
+      change ([] :: repeat [] n ++ [s2l "c" ++ [C12_nl]]) with (repeat [] (S n) ++ [s2l "c" ++ [C12_nl]]).
+      rewrite empties_repeat. cbn. unfold max_consecutive_empty_reads. lia. }
+  apply progress_ok_nonempty; [discriminate|]. apply H. lia.
+Qed.
+
+(* a script whose error is bufio.ErrBufferFull: ReadString does not return (here: out of fuel) *)
+Example C12_bufio_example_buffer_full_source :
+  read_string_b C12_nl (new_reader_size (mkSource [] [] EBufferFull 0) 16) = RSOutOfFuel.
+Proof. vm_compute. reflexivity. Qed.
